@@ -67,8 +67,9 @@ def _compile(name, stmts, local_names, fn, filename, allow_return):
     code = compile(mod, filename, "exec")
     g = fn.__globals__
     ns: dict = {}
-    # closure variables of fn are made visible as globals of the piece (read-only use)
-    glb = dict(g)
+    # closure variables of fn are made visible as globals of the piece (read-only use); everything else is
+    # looked up in the module's LIVE globals (so stubs patched later are seen)
+    glb = {"__builtins__": g.get("__builtins__", __builtins__)}
     if fn.__closure__:
         for n, cell in zip(fn.__code__.co_freevars, fn.__closure__):
             try:
